@@ -94,8 +94,8 @@ fn tbs_kids(nodes: &mut Vec<Node>) -> Option<&mut Vec<Node>> {
     nodes.get_mut(0)?.kids.as_mut()?.get_mut(0)?.kids.as_mut()
 }
 
-fn prim(tag: u8, content: &[u8]) -> Node { Node { tag, kids: None, lead: vec![], content: content.to_vec() } }
-fn cons(tag: u8, kids: Vec<Node>) -> Node { Node { tag, kids: Some(kids), lead: vec![], content: vec![] } }
+fn prim(tag: u8, content: &[u8]) -> Node { Node { tag, kids: None, lead: vec![], content: content.to_vec(), long_len: false } }
+fn cons(tag: u8, kids: Vec<Node>) -> Node { Node { tag, kids: Some(kids), lead: vec![], content: vec![], long_len: false } }
 /// the values of `bytes` as nodes; a value whose content does not parse keeps it as opaque octets
 fn raw(bytes: &[u8]) -> Vec<Node> {
     if let Some(n) = der::parse_nodes(bytes) { return n }
@@ -105,7 +105,7 @@ fn raw(bytes: &[u8]) -> Vec<Node> {
         let Some((h, n)) = der::split_tlv(&bytes[off..]) else { break };
         let c = &bytes[off + h..off + h + n];
         let kids = if bytes[off] & 0x20 != 0 { der::parse_nodes(c) } else { None };
-        out.push(Node { tag: bytes[off], kids, lead: vec![], content: c.to_vec() });
+        out.push(Node { tag: bytes[off], kids, lead: vec![], content: c.to_vec(), long_len: false });
         off += h + n;
     }
     out
